@@ -249,6 +249,14 @@ class RealWorld:
                                            write_mode="bogus" if op["mode"] == "other" else op["mode"])
             S.append(st)
             return None, {"store": len(S) - 1}, mop
+        if k == "fromCollection":
+            mop["rtol"], mop["atol"] = q(op["rtol"]), q(op["atol"])
+            if any(i >= len(S) for i in op["sids"]):
+                return self._bad(mop)
+            st = MemoryStorage.from_collection([S[i] for i in op["sids"]], label=op.get("label"),
+                                               rtol=op["rtol"], atol=op["atol"])
+            S.append(st)
+            return None, {"store": len(S) - 1}, mop
         # everything else addresses a storage
         sid = op["sid"]
         if k == "append":
